@@ -282,13 +282,14 @@ class ListRowContainer(Container):
         """
         super().render(width)
 
-        if self._columns_width is None:
+        columns_width = self._columns_width
+        if columns_width is None:
             spaces_between_columns = self._columns - 1
             sum_spacing = spaces_between_columns * self._spacing
-            self._columns_width = int((width - sum_spacing) / self._columns)
+            columns_width = int((width - sum_spacing) / self._columns)
 
         ordered_map = self._get_ordered_map()
-        lines_per_rows = self._lines_per_every_row(ordered_map)
+        lines_per_rows = self._lines_per_every_row(ordered_map, columns_width)
 
         # the leftmost empty column
         col_pos = 0
@@ -314,10 +315,10 @@ class ListRowContainer(Container):
                 row_pos = row_pos + lines_per_rows[row_id]
 
             # recompute the leftmost empty column
-            col_pos = max((col_pos + self._columns_width), self.width) + self._spacing
+            col_pos = max((col_pos + columns_width), self.width) + self._spacing
 
-    def _lines_per_every_row(self, items):
-        self._render_all_items()
+    def _lines_per_every_row(self, items, columns_width):
+        self._render_all_items(columns_width)
         # call `self._render_and_calculate_lines_per_rows()` method instead
         lines_per_row = []
 
@@ -333,9 +334,11 @@ class ListRowContainer(Container):
 
         return lines_per_row
 
-    def _render_all_items(self):
+    def _render_all_items(self, columns_width):
+        self._numbering_widgets = []
+
         for item_id, item in enumerate(self._items):
-            item_width = self._columns_width
+            item_width = columns_width
 
             if item_width <= 0:
                 raise ValueError("Widget can't be rendered! Columns width is too small.")
